@@ -448,6 +448,17 @@ func (c *decCtx) malformed(mi *msgInfo, b []byte, class string) {
 	}
 	runtime.ReadMemStats(&ms1)
 	allocSink = q
+	if c.modelOK && class != "deep" {
+		// the reference's verdict on the same bytes, for the reference-decoder model (parser strictness:
+		// overflowing varints, field numbers, group ends, UTF-8, lengths)
+		d := dynamicpb.NewMessage(mi.md)
+		rerr, rpan := catchUnmarshal(proto.UnmarshalOptions{}, b, d)
+		obs := "err"
+		if rerr == nil && rpan == nil {
+			obs = "ok " + si.normV(mi, si.fromPR(mi, d)).String()
+		}
+		o.kase("REFDEC", []string{si.id, fmt.Sprint(mi.idx), "-", hx(b), "-"}, obs)
+	}
 	alloc := ms1.TotalAlloc - ms0.TotalAlloc
 	o.count("malformed_" + class + "_" + strings.Fields(res)[0])
 	k := len(b)
